@@ -209,7 +209,8 @@ func TestC03(t *testing.T) {
 		if sh != 0 {
 			return
 		}
-		for _, c := range []c03Flap{{Callers: 8, Flap: 3000, ForMs: scale(1500, 8000)}, {Callers: 3, Flap: 1000, ForMs: scale(800, 4000), BigEvery: 3}, {Callers: 12, Flap: 7000, ForMs: scale(1000, 6000), Subs: 3, BigEvery: 5}} {
+		for _, c := range []c03Flap{{Callers: 8, Flap: 3000, ForMs: scale(1500, 8000)}, {Callers: 3, Flap: 1000, ForMs: scale(800, 4000), BigEvery: 3}, {Callers: 12, Flap: 7000, ForMs: scale(1000, 6000), Subs: 3, BigEvery: 5},
+			{Callers: 8, Flap: 4000, ForMs: scale(1500, 8000), MidFrame: true}, {Callers: 4, Flap: 2000, ForMs: scale(1000, 5000), MidFrame: true, BigEvery: 4}} {
 			c := c
 			rec.Run(t, c, true, []string{"flapping_under_load"}, func() *Violation {
 				v := runC03Flap(c)
@@ -296,11 +297,12 @@ func TestC03(t *testing.T) {
 // c03Flap: callers keep issuing calls while the connection is reset every few milliseconds, so that calls land at
 // every instant of the loss / redial / re-established cycle many times over.
 type c03Flap struct {
-	Callers  int `json:"callers"`
-	Flap     int `json:"flap_every_us"` // a reset every so many microseconds
-	ForMs    int `json:"for_ms"`
-	Subs     int `json:"subs,omitempty"`      // callers that subscribe instead (and drain the channel)
-	BigEvery int `json:"big_every,omitempty"` // every n-th call carries a 20 kB request
+	Callers  int  `json:"callers"`
+	Flap     int  `json:"flap_every_us"` // a reset every so many microseconds
+	ForMs    int  `json:"for_ms"`
+	Subs     int  `json:"subs,omitempty"`      // callers that subscribe instead (and drain the channel)
+	BigEvery int  `json:"big_every,omitempty"` // every n-th call carries a 20 kB request
+	MidFrame bool `json:"mid_frame,omitempty"` // every second reset hits the middle of a server-to-client frame (results are 3 kB then)
 }
 
 func runC03Flap(c c03Flap) *Violation {
@@ -331,6 +333,9 @@ func runC03Flap(c c03Flap) *Violation {
 				default:
 				}
 				kind, plan := "call", Plan{}
+				if c.MidFrame {
+					plan.Size = 3000
+				}
 				if g < c.Subs {
 					kind, plan = "sub", Plan{N: 3, Early: 1}
 				} else if c.BigEvery > 0 && n%c.BigEvery == 0 {
@@ -356,11 +361,25 @@ func runC03Flap(c c03Flap) *Violation {
 		}(g)
 	}
 	end := time.Now().Add(time.Duration(c.ForMs) * time.Millisecond)
-	for time.Now().Before(end) {
+	for n := 0; time.Now().Before(end); n++ {
 		time.Sleep(time.Duration(c.Flap) * time.Microsecond)
+		if c.MidFrame && n%2 == 1 {
+			// reset the newest connection in the middle of one of the next frames the server sends on it
+			fc := rig.Proxy.FrameCounts()
+			if idx := len(fc) - 1; idx >= 0 {
+				rig.Proxy.ClearFaults()
+				rig.Proxy.AddFault(&Fault{Conn: idx, Dir: "s2c", Frame: fc[idx]["s2c"] + 1 + n%3, Pos: "mid", Kind: "rst"})
+				if rig.Proxy.WaitFault(time.Duration(c.Flap)*time.Microsecond) != nil {
+					atomic.AddInt64(&redials, 1)
+					continue
+				}
+				rig.Proxy.ClearFaults()
+			}
+		}
 		rig.Proxy.CutAll("rst")
 		atomic.AddInt64(&redials, 1)
 	}
+	rig.Proxy.ClearFaults()
 	// the path is left alone now: the client must come back, and every caller's call must have returned
 	healed := false
 	var last error
